@@ -129,6 +129,15 @@ def _c10_maxt():
         return {"input": "maxT 'greater', simulated -0.224, observed -0.211", "issue": "one-sided maxT used absolute values", "returned": str(r)[:200]}
 
 
+def _c10_mixed_maxt():
+    from permute import npc
+    e, t, _ = scripted_experiment([[1, -3]], [3, 1])
+    r = guarded(npc.westfall_young, e, t, method="maxT", alternatives=["two-sided", "greater"], reps=1)
+    if r[0] != "ok" or abs(r[1][0][0] - 0.5) > 1e-12 or abs(r[1][0][1] - 0.5) > 1e-12:
+        return {"input": "maxT, one randomisation (1, -3), observed (3, 1), alternatives ['two-sided', 'greater']",
+                "issue": "mixed list of alternatives: hypotheses not ordered / stepped down on their own scales (expected (1/2, 1/2))", "returned": str(r)[:200]}
+
+
 def _c11_ties():
     from permute import npc
     h = guarded(npc.adjust_p, np.array([0.01, 0.01, 0.5]), "holm-bonferroni"); b = guarded(npc.adjust_p, np.array([0.01, 0.01, 0.5]), "benjamini-hochberg")
@@ -167,7 +176,8 @@ CORPUS = {
     "C19": [("D6-incidence-global-rng", "permute_incidence_fixed_sums", _c06_incidence), ("D6b-nonbinary", "permute_incidence_fixed_sums", _c19_nonbinary)],
     "C07": [("D7-simnpc-zero", "sim_npc", _c07_zero), ("D15-float32", "sim_npc", _c07_float32)],
     "C09": [("D8-fwer-order", "fwer_minp", _c09_order)],
-    "C10": [("D9a-minP", "westfall_young", _c10_minp), ("D9b-maxT", "westfall_young", _c10_maxt), ("D16-float32", "westfall_young", _c10_float32)],
+    "C10": [("D9a-minP", "westfall_young", _c10_minp), ("D9b-maxT", "westfall_young", _c10_maxt), ("D16-float32", "westfall_young", _c10_float32),
+            ("D17-mixed-maxT", "westfall_young", _c10_mixed_maxt)],
     "C11": [("D10-ties", "adjust_p", _c11_ties)],
     "C12": [("D11-kwargs", "binom_conf_interval", _c12_kwargs)],
     "C13": [("D12-nan", "hypergeom_conf_interval", _c13_nan)],
